@@ -845,6 +845,38 @@ lys_compile_unres_disabled_bitenum(struct lysc_ctx *ctx, struct lysc_node_leaf *
 }
 
 /**
+ * @brief Check whether a leafref is found in a type, following the resolved leafrefs and the types of unions.
+ *
+ * @param[in] type Type to search in.
+ * @param[in] lref Leafref to find.
+ * @return Whether @p lref was found in @p type.
+ */
+static ly_bool
+lys_compile_unres_leafref_in_type(const struct lysc_type *type, const struct lysc_type_leafref *lref)
+{
+    const struct lysc_type_union *un;
+    LY_ARRAY_COUNT_TYPE u;
+
+    if (!type) {
+        /* leafref not resolved yet */
+        return 0;
+    } else if (type == (const struct lysc_type *)lref) {
+        return 1;
+    } else if (type->basetype == LY_TYPE_LEAFREF) {
+        return lys_compile_unres_leafref_in_type(((const struct lysc_type_leafref *)type)->realtype, lref);
+    } else if (type->basetype == LY_TYPE_UNION) {
+        un = (const struct lysc_type_union *)type;
+        LY_ARRAY_FOR(un->types, u) {
+            if (lys_compile_unres_leafref_in_type(un->types[u], lref)) {
+                return 1;
+            }
+        }
+    }
+
+    return 0;
+}
+
+/**
  * @brief Check leafref for its target existence on a complete compiled schema tree.
  *
  * @param[in] ctx Compile context.
@@ -859,7 +891,6 @@ lys_compile_unres_leafref(struct lysc_ctx *ctx, const struct lysc_node *node, st
 {
     const struct lysc_node *target = NULL;
     struct ly_path *p;
-    struct lysc_type *type;
     uint16_t flg;
 
     assert(node->nodetype & (LYS_LEAF | LYS_LEAFLIST));
@@ -911,15 +942,11 @@ lys_compile_unres_leafref(struct lysc_ctx *ctx, const struct lysc_node *node, st
     }
 
     /* check for circular chain of leafrefs */
-    for (type = ((struct lysc_node_leaf *)target)->type;
-            type && (type->basetype == LY_TYPE_LEAFREF);
-            type = ((struct lysc_type_leafref *)type)->realtype) {
-        if (type == (struct lysc_type *)lref) {
-            /* circular chain detected */
-            LOGVAL(ctx->ctx, LYVE_REFERENCE, "Invalid leafref path \"%s\" - circular chain of leafrefs detected.",
-                    lref->path->expr);
-            return LY_EVALID;
-        }
+    if (lys_compile_unres_leafref_in_type(((struct lysc_node_leaf *)target)->type, lref)) {
+        /* circular chain detected */
+        LOGVAL(ctx->ctx, LYVE_REFERENCE, "Invalid leafref path \"%s\" - circular chain of leafrefs detected.",
+                lref->path->expr);
+        return LY_EVALID;
     }
 
     /* store the type */
